@@ -66,6 +66,15 @@ func (z *Interpreter) SetExternalLibs(libs []*r.Library) *Interpreter {
 	return z
 }
 
+// Fork - a copy of this interpreter (same version, libraries and server) for one
+// execution. LoadScript / LoadFile store the code to run in the interpreter they are
+// called on, so callers that serve concurrent requests with one interpreter must load
+// and execute on a fork, never on the shared object.
+func (z *Interpreter) Fork() *Interpreter {
+	forked := *z
+	return &forked
+}
+
 ///// load functions //////
 
 func (z *Interpreter) LoadScript(source []rune) *Interpreter {
